@@ -122,6 +122,10 @@ class Area:
     def verify(self, obj) -> Optional[str]:
         return None
 
+    def load_raw(self, inst: dict, cfg: dict):
+        """The load entry point on exactly the dictionary object handed in (no protective copy)."""
+        return self.load(inst, cfg)
+
     def queries(self, obj, inst: dict) -> list:
         """Every public, read-only looking call the area offers on an object: [(name, thunk)].  Nothing is judged here;
         c12.hist_case demands that export() and the configuration of the object are the same after each of them."""
@@ -398,7 +402,14 @@ class XmcdArea(Area):
     def load(self, inst, cfg):
         from spsdk.image.xmcd.xmcd import XMCD
 
-        return XMCD.load_from_config(copy.deepcopy(cfg))  # load_from_config pops "header" out of the caller's dict
+        # (load_from_config used to pop "header" out of the caller's dict: the departures share nested dicts with the
+        # template configuration, so they hand in a copy; c12.hist_case checks the entry point on the very object)
+        return XMCD.load_from_config(copy.deepcopy(cfg))
+
+    def load_raw(self, inst, cfg):
+        from spsdk.image.xmcd.xmcd import XMCD
+
+        return XMCD.load_from_config(cfg)
 
     def export(self, obj) -> bytes:
         return obj.export()
